@@ -368,3 +368,46 @@ import purestream as _ps
 REGISTRY["C11"] = dict(run=pure_then_sim(_ps.run_c11_pure, 120, 6000), footprint_doc="sort_task/worker/facility/workplace_list (pure stream); allocate x allocation fields")
 REGISTRY["C12"] = dict(run=pure_then_sim(_ps.run_c12_pure, 300, 20000), footprint_doc="update_PERT_data (pure stream, arbitrary stale values); pert x est/eft/lst/lft/cpl in every phase")
 REGISTRY["C19"] = dict(run=run_c19, footprint_doc="Gantt encoders, plotly rows, extract_*_list, set_last_datetime (pure functions of the logs)")
+
+
+# ---- history-based properties -------------------------------------------------------------------
+import histprops as _hp
+
+
+def _hist(fn):
+    def run(ctx):
+        fn(ctx)
+    return run
+
+
+def run_c08_full(ctx):
+    """simulation stream (lockstep on all logs) + histories of simulate/backward/initialize/resume/reverse"""
+    from driver import Driver
+    results = simstream.run_stream(ctx.seed, ctx.n(128, 8000), "full", [ctx.pid])
+    absorb_sim(ctx, results, "full")
+    with Driver() as drv:
+        n, fps = _hp.run_c08_hist(ctx, drv, ctx.n(60, 3000))
+    ctx.evaluations += n
+    ctx.traces_validated += n
+    ctx.distinct_nontrivial += len(fps)
+    ctx.rule += "; plus histories: random sequences (1-5 ops) of simulate (all init-flag combinations, several max_time values), backward_simulate (both flags), initialize(flags), resume and reverse_log_information on one project object, alignment checked after every op and every op mirrored in the model"
+
+
+def run_c10_full(ctx):
+    results = simstream.run_stream(ctx.seed, ctx.n(128, 8000), "full", [ctx.pid])
+    absorb_sim(ctx, results, "full")
+    n, fps = _hp.run_c10_removal(ctx, ctx.n(60, 3000))
+    ctx.evaluations += n
+    ctx.traces_validated += n
+    ctx.distinct_nontrivial += len(fps)
+    ctx.rule += "; plus clause 3 on real histories: simulate(absence=L); remove_absence_time_list() against simulate() for models without individual absences and component-bound automatic tasks, flag off"
+
+
+REGISTRY["C08"] = dict(run=run_c08_full, footprint_doc=REGISTRY["C08"]["footprint_doc"] + "; history ops")
+REGISTRY["C10"] = dict(run=run_c10_full, footprint_doc=REGISTRY["C10"]["footprint_doc"] + "; removal histories (search only)")
+REGISTRY["C09"] = dict(run=_hp.run_c09, footprint_doc="whole runs under permuted set-iteration orders, rebuilt objects, repeated simulate, fresh processes")
+REGISTRY["C15"] = dict(run=_hp.run_c15, footprint_doc="pause/resume histories at every k, in memory and through JSON")
+REGISTRY["C17"] = dict(run=_hp.run_c17, footprint_doc="backward_simulate histories incl. exception injection at observer calls")
+REGISTRY["C18"] = dict(run=_hp.run_c18, footprint_doc="remove/insert_absence_time_list histories")
+for _p in ("C09", "C15", "C17", "C18"):
+    FOOTPRINT.setdefault(_p, (["*"], None))
